@@ -29,6 +29,7 @@ var moduleAccounts = []string{aggregatetypes.ModuleName, rvestingtypes.ModuleNam
 type snap struct {
 	bal    map[string]*big.Int // "bank|<acct>|<denom>", "erc20|<contract>|<acct>", "supply|<denom>", "tsupply|<contract>"
 	stores map[string]map[string]string
+	stake  map[string]string
 }
 
 func compact(v string) string {
@@ -105,6 +106,7 @@ func (w *world) snapshot() *snap {
 			s.bal["erc20|"+ct.Hex()+"|"+an] = w.erc20Call(ct, "balanceOf", common.BytesToAddress(a))
 		}
 	}
+	s.stake = w.stakeState()
 	for _, name := range []string{"aggregate", "bank", "evm", "staking", "gov", "distribution"} {
 		d := w.c.DumpStore(name)
 		for k, v := range d {
